@@ -16,7 +16,7 @@ CLAIM = {
             "translated), only the documented family; evaluation of a compiled query in the model is a total function (it cannot raise); all model functions are accepted by "
             "Lean's termination checker. The query *compiler* (lexer/parser) is not modelled in Lean: for it the claim is decided by token-soup and mutation fuzzing on the "
             "implementation, which classifies every outcome (returned / documented family / anything else) and renders every error as text; the pointer and patch models are "
-            "tied to the implementation on the same fuzz streams.",
+            "tied to the implementation on the same fuzz streams. Character-level lexer model: lexing any text fails only with a syntax error (lex_safe); Lexer.tokenize is compared with the model on every fuzzed query text.",
     "note": "Trusted: Lean kernel; models JP.Pointer/JP.RelPointer/JP.Patch/JP.Query; for query compilation the evidence is fuzzing only (stated as such); RecursionError on "
             "inputs nested > 100 levels and time inside the regex engine are outside the property.",
     "technique": "Lean 4 safety theorems (no built-in exception escapes the pointer/patch/evaluator models; totality) + classified fuzzing of compile/evaluate on the implementation",
@@ -144,6 +144,9 @@ def evaluate(ctx, cases):
     from jsonpath import JSONPatch, JSONPointer, RelativeJSONPointer
 
     signal.signal(signal.SIGALRM, _alarm)
+    # character-level lexer model vs Lexer.tokenize on every query text of the fuzz streams
+    from .. import lexcorr
+    lexcorr.run_texts(ctx, jsonpath.DEFAULT_ENV, [c["text"] for c in cases if c["kind"] in ("query", "evalgrid")])
     reqs, meta = [], []
     for c in cases:
         if c["kind"] == "pointer":
